@@ -23,16 +23,36 @@ def showCfg (c : Config) (keys : List Fam) (fams : List Fam) : String :=
   let rx := String.ofList (fams.map fun f => if c.rx f then '1' else '0')
   s!"four={if c.four then 1 else 0} cfg={cfg} rx={rx}"
 
-/-- decode an OPEN with the C03 model; `none` = rejected or ADD-PATH list unreadable -/
-def openInfo (bs : Bytes) : Option (OpenInfo × List (Nat × Nat × Nat)) :=
+/-- decode an OPEN with the C03 model: `none` = `from_octets` rejects it (or an accessor panics);
+otherwise `four_octet_capable()` and `addpath_families_vec()` (`ap = none` = `Err`) -/
+def openRd (bs : Bytes) : Option OpenRd :=
   match Open.fromOctets bs with
   | .ok m =>
     match Open.fourOctetCapable m, Open.addpathFamiliesVec m with
     | .ok four, .ok ap =>
-      let l := ap.filterMap fun (a, s, d) => (Dir.ofCode d).map fun dd => ((a, s), dd)
-      some (⟨four, l⟩, ap)
+      some ⟨four, some (ap.filterMap fun (a, s, d) => (Dir.ofCode d).map fun dd => ((a, s), dd))⟩
+    | .ok four, .err => some ⟨four, none⟩
     | _, _ => none
   | _ => none
+
+def famsOf (o : OpenRd) : List Fam := match o.ap with | some l => l.map (·.1) | none => []
+
+/-- the OPEN `Session::send_open` builds for the harness's configuration (AS 65001, hold time 90,
+id 10.0.0.1, protocols 1/1 and 2/1, ADD-PATH SendReceive for `cf`), through the C03 model of
+`OpenBuilder::finish` (u8 sums: `.panic` = known finding K4) -/
+def sentOpen (cf : List Fam) : Outcome Bytes :=
+  Open.finish ⟨65001, 90, [10, 0, 0, 1],
+    [Open.fourOctetCapBytes 65001, Open.mpCapBytes 1 1, Open.mpCapBytes 2 1],
+    cf.map fun (a, s) => (a, s, 3)⟩
+
+/-- `sent4=… sentap=…` as the harness reads them off the OPEN that was sent -/
+def showSent (bs : Bytes) : Option String :=
+  match Open.fourOctetCapable bs, Open.addpathFamiliesVec bs with
+  | .ok four, .ok ap =>
+    let sentap := if ap.isEmpty then "-" else ",".intercalate (ap.map fun (a, s, d) => s!"{a}/{s}/{d}")
+    some s!"sent4={if four then 1 else 0} sentap={sentap}"
+  | .ok four, .err => some s!"sent4={if four then 1 else 0} sentap=E"
+  | _, _ => none
 
 def parseFams (s : String) : Option (List Fam) :=
   if s == "-" then some [] else
@@ -44,35 +64,68 @@ def parseFams (s : String) : Option (List Fam) :=
       if a < 65536 ∧ b < 256 then some (a, b) else none
     | _ => none
 
+/-- one negotiation of a live session with the peer OPEN `pb`; `sentFirst`: the session's OPEN
+went out before the peer's arrives (OpenSent) – otherwise (Active+DelayOpen) it is sent from the
+accepting arm, after the ADD-PATH list was read -/
+def liveReply (sentFirst : Bool) (cf : List Fam) (pb : Bytes) : String :=
+  match openRd pb with
+  | some pi =>
+    match (if sentFirst || pi.ap.isSome then sentOpen cf else .ok []) with
+    | .ok sb =>
+      let sent := if !sentFirst && pi.ap.isNone then some "sent4=9 sentap=no-open" else showSent sb
+      (match sent, liveConfigE cf pi with
+       | some sent, none => s!"L inject-err {sent}"
+       | some sent, some c =>
+         let keys := cf ++ famsOf pi
+         let fams := watched keys
+         let probe := if c.rx (1, 1) then "pathid" else "plain"
+         let asp := if c.four then "as4" else "as2"
+         s!"L {showCfg c keys fams} {sent} probe={probe} aspath={asp}"
+       | none, _ => "panic")
+    | _ => "panic"
+  | none => "err"
+
 def handle (ws : List String) : String :=
   match ws with
   | ["neg", l, p, g] =>
-    match bytesOfHex l, bytesOfHex p, (if g == "0" then some false else if g == "1" then some true else none) with
+    match bytesOfHex l, bytesOfHex p, (if g == "0" || g == "3" then some false else if g == "1" || g == "2" then some true else none) with
     | some lb, some pb, some legacy =>
-      (match openInfo lb, openInfo pb with
-       | some (li, _), some (pi, _) =>
-         let keys := li.ap.map (·.1) ++ pi.ap.map (·.1)
+      (match openRd lb, openRd pb with
+       | some li, some pi =>
+         let keys := famsOf li ++ famsOf pi
          let fams := watched keys
-         let h := helper li pi
-         let b := bmpConfig li pi
-         let (pc, inc) := pphConfig li pi legacy
+         let h := helperE li pi
+         let b := bmpConfigE li pi
+         let (pc, inc) := pphConfigE li pi legacy
          s!"H {showCfg h keys fams} | B {showCfg b keys fams} | P {showCfg pc keys fams} incons={if inc then 1 else 0}"
        | _, _ => "err")
     | _, _, _ => "bad-op"
-  | ["live", f, p] | ["live-delay", f, p] =>   -- both copies of the negotiation code (OpenSent / Active+DelayOpen)
+  | ["fdm", x, dx, y, dy] =>
+    match parseFams x, dx.toNat?.bind Dir.ofCode, parseFams y, dy.toNat?.bind Dir.ofCode with
+    | some [fx], some a, some [fy], some b =>
+      (match famDirMerge (fx, a) (fy, b) with
+       | none => "none"
+       | some (f, d) => s!"{f.1}/{f.2}:{d.code}")
+    | _, _, _, _ => "bad-op"
+  | ["live2", f, p1, p2] =>
+    -- one Session, two connections: the second negotiation starts from a fresh Connection
+    -- (`SessionConfig::modern()`, empty ADD-PATH table) and replaces `Session.negotiated`, so it is
+    -- the single-connection negotiation of pair #2; the first only decides whether we get there
+    match parseFams f, bytesOfHex p1, bytesOfHex p2 with
+    | some cf, some pb1, some pb2 =>
+      (match openRd pb1, openRd pb2 with
+       | some pi1, some _ =>
+         (match sentOpen cf with
+          | .ok _ =>
+            -- `liveSecond cf pi1 pi2`: refused first OPEN = nothing; else the negotiation of pair #2 alone
+            if (liveConfigE cf pi1).isNone then "L2 first-err" else liveReply true cf pb2
+          | _ => "panic")
+       | _, _ => "err")
+    | _, _, _ => "bad-op"
+  | [op, f, p] =>
+    if op != "live" && op != "live-delay" then "bad-op" else   -- both copies of the negotiation code (OpenSent / Active+DelayOpen)
     match parseFams f, bytesOfHex p with
-    | some cf, some pb =>
-      (match openInfo pb with
-       | some (pi, _) =>
-         let keys := cf ++ pi.ap.map (·.1)
-         let fams := watched keys
-         let c := liveConfig cf pi
-         let loc := liveLocal cf
-         let sentap := if loc.ap.isEmpty then "-" else ",".intercalate (loc.ap.map fun (f, d) => s!"{f.1}/{f.2}/{d.code}")
-         let probe := if c.rx (1, 1) then "pathid" else "plain"
-         let asp := if c.four then "as4" else "as2"
-         s!"L {showCfg c keys fams} sent4={if loc.four then 1 else 0} sentap={sentap} probe={probe} aspath={asp}"
-       | none => "err")
+    | some cf, some pb => liveReply (op == "live") cf pb
     | _, _ => "bad-op"
   | _ => "bad-op"
 
